@@ -443,6 +443,44 @@ def load_known():
     return known, fixed
 
 
+# ----------------------------------------------------------------------------- source fingerprints
+def anchored_files(pid):
+    """repository files the property is anchored in (properties.jsonl), plus the plugin's own SOURCES"""
+    for line in open(os.path.join(ROOT, "properties.jsonl")):
+        p = json.loads(line)
+        if p["id"] == pid:
+            return list(p.get("anchors", {}).get("files", []))
+    return []
+
+
+def file_sha(path):
+    try:
+        return hashlib.sha256(open(path, "rb").read()).hexdigest()
+    except OSError:
+        return "missing"
+
+
+def source_fingerprint(ctx, plugin):
+    """Compare the anchored source files of ctx.repo with the fingerprints recorded (checks/source_pins.json)
+    when the model was last reviewed against the code.  A difference is NOT an alarm (a harmless rewrite
+    changes the text too): it only makes the run spend more on the correspondence (see run_check)."""
+    files = sorted(set(anchored_files(plugin.ID) + list(getattr(plugin, "SOURCES", []))))
+    try:
+        pins = json.load(open(os.path.join(ROOT, "checks", "source_pins.json"))).get(plugin.ID, {})
+    except OSError:
+        pins = {}
+    changed = [f for f in files if f.endswith(".rs") and pins.get(f) != file_sha(os.path.join(ctx.repo, f))]
+    return files, changed
+
+
+def spread(xs, n):
+    """n elements of xs spread evenly over the whole list (generators emit category after category)"""
+    if len(xs) <= n:
+        return xs
+    step = len(xs) / float(n)
+    return [xs[int(i * step)] for i in range(n)]
+
+
 # ----------------------------------------------------------------------------- main flow
 def report_item(plugin, it):
     c, profile, obs, term = it
@@ -500,6 +538,12 @@ def run_check(ctx, plugin, replay):
     if hasattr(plugin, "prepare"):
         plugin.prepare(ctx)
 
+    # 2b. has the anchored source text changed since the model was reviewed against it?
+    src_files, src_changed = source_fingerprint(ctx, plugin)
+    ctx.src_files, ctx.src_changed = src_files, src_changed
+    if src_changed:
+        ctx.say("[%s] anchored source differs from the reviewed fingerprint (%s): enlarged correspondence" % (pid, ", ".join(src_changed)))
+
     # 3. cases: corpus first, then generated
     rng = Rng(ctx.seed).fork(pid)
     if replay:
@@ -510,7 +554,12 @@ def run_check(ctx, plugin, replay):
         else:
             cases = [rp["case"]]
     else:
-        cases = corpus_cases(plugin) + plugin.generate(rng, ctx.tier)
+        gen = plugin.generate(rng, ctx.tier)
+        cases = corpus_cases(plugin) + gen
+        if src_changed and ctx.tier == "quick":
+            # the code under the model was edited: add a spread sample of the thorough-tier generator (other seed)
+            more = plugin.generate(Rng(ctx.seed + 104729).fork(pid), "thorough")
+            cases += spread(more, getattr(plugin, "ESCALATE_MAX", 2 * len(gen)))
     t_gen = time.time()
     try:
         items = evaluate(ctx, plugin, cases)
@@ -682,6 +731,8 @@ def write_evidence(ctx, plugin, gate, axioms, items, n_lem, n_lem_ok, n_viol, ex
         "samples": samples,
         "exhaustive": False,
         "known_findings_reported": ctx.known,
+        "anchored_sources": getattr(ctx, "src_files", []),
+        "anchored_sources_changed_since_review": getattr(ctx, "src_changed", []),
     }
     if extra:
         cov.update(extra)
